@@ -473,6 +473,19 @@ func genC08Multi(r *rand.Rand) *Case {
 	c.Symlinks = r.Intn(100) < 40
 	genTables(r, c, 1+r.Intn(2), 25)
 	genDets(r, c)
+	// an extraction error in a chosen root position (often not the last): a file that only this root has
+	if r.Intn(100) < 70 {
+		pos := r.Intn(n)
+		nm := fmt.Sprintf("err%d", pos)
+		c.Roots[pos].Children = append(c.Roots[pos].Children, &Node{Name: nm, Kind: "reg", Size: 1})
+		e := c.Exts[r.Intn(len(c.Exts))]
+		c.Req = append(c.Req, [2]string{e, nm})
+		x := XEntry{Ext: e, Path: nm, Err: true}
+		if r.Intn(2) == 0 {
+			x.Pkgs = []Pkg{{Name: "p", Version: "1", Locs: []string{nm}}}
+		}
+		c.Extract = append(c.Extract, x)
+	}
 	if r.Intn(3) == 0 {
 		// only the last root yields packages: inside the domain of multiroot_is_union_on_D
 		last := map[string]bool{}
@@ -832,6 +845,28 @@ func genC01Exhaustive(maxNodes int) []*Case {
 			c.IgnoreSub = mask&64 != 0
 			out = append(out, c)
 		}
+	}
+	return out
+}
+
+// genC08RootOrder: one multi-root content in every order of its roots (one group): the set of plugin statuses and the
+// multiset of packages must not depend on the order.
+func genC08RootOrder(r *rand.Rand, group int) []*Case {
+	base := genC08Multi(r)
+	base.Stream = "rootorder"
+	base.Group = group
+	base.Variant = "base"
+	out := []*Case{base}
+	n := len(base.Roots)
+	for k := 1; k < 5; k++ {
+		v := copyCase(base)
+		v.Variant = fmt.Sprintf("order%d", k)
+		perm := r.Perm(n)
+		v.Roots = nil
+		for _, i := range perm {
+			v.Roots = append(v.Roots, clone(base.Roots[i]))
+		}
+		out = append(out, v)
 	}
 	return out
 }
